@@ -122,10 +122,22 @@ where
                 LTermInner::Val(LValue::Number(w)),
             ) => {
                 /* u and w grounded */
-                state
-                    .smap_to_mut()
-                    .extend(vwalk.clone(), LTerm::from(w / u));
-                state.run_constraints()
+                if *u == 0 {
+                    // 0 * v = w: any v will do if w is zero, none otherwise
+                    if *w == 0 {
+                        Ok(state.with_constraint(self))
+                    } else {
+                        Err(())
+                    }
+                } else if w.checked_rem(*u) != Some(0) {
+                    // No integer solution
+                    Err(())
+                } else {
+                    state
+                        .smap_to_mut()
+                        .extend(vwalk.clone(), LTerm::from(w / u));
+                    state.run_constraints()
+                }
             }
             (
                 LTermInner::Var(_, _),
@@ -133,14 +145,27 @@ where
                 LTermInner::Val(LValue::Number(w)),
             ) => {
                 /* v and w grounded */
-                state
-                    .smap_to_mut()
-                    .extend(uwalk.clone(), LTerm::from(w / v));
-                state.run_constraints()
+                if *v == 0 {
+                    // u * 0 = w: any u will do if w is zero, none otherwise
+                    if *w == 0 {
+                        Ok(state.with_constraint(self))
+                    } else {
+                        Err(())
+                    }
+                } else if w.checked_rem(*v) != Some(0) {
+                    // No integer solution
+                    Err(())
+                } else {
+                    state
+                        .smap_to_mut()
+                        .extend(uwalk.clone(), LTerm::from(w / v));
+                    state.run_constraints()
+                }
             }
             (LTermInner::Var(_, _), LTermInner::Var(_, _), LTermInner::Val(LValue::Number(_)))
             | (LTermInner::Var(_, _), LTermInner::Val(LValue::Number(_)), LTermInner::Var(_, _))
-            | (LTermInner::Val(LValue::Number(_)), LTermInner::Var(_, _), LTermInner::Var(_, _)) => {
+            | (LTermInner::Val(LValue::Number(_)), LTermInner::Var(_, _), LTermInner::Var(_, _))
+            | (LTermInner::Var(_, _), LTermInner::Var(_, _), LTermInner::Var(_, _)) => {
                 /* Not enough terms grounded to verify constraint. */
                 Ok(state.with_constraint(self))
             }
